@@ -47,7 +47,8 @@ def run(tier):
                 continue      # representation fidelity of stores is C04's
             chk.violation("[%s/%s] tainted pointer outside its sandbox (C03): %s" % (mode, tag, mc.pretty(ev)), mc.pretty(ev))
         if mode == "chain":
-            chk.sample(mc.pretty(events[7]))
+            if len(events) > 7:
+                chk.sample(mc.pretty(events[7]))
     # pointer arithmetic on backends whose range check compares the OWNERS of two addresses (found by walking the
     # live-sandbox list), with one live sandbox and with an older one destroyed first: nothing leaves the sandbox
     import addrcommon as ac
